@@ -8,7 +8,12 @@ before and after each file-system call database.py makes on the directory
 (os.path.exists on dbfile, tempfile.mkstemp, os.close of the temp fd,
 sqlite3.connect, Connection.close, os.rename, shutil.copy), before each SQL
 statement SQLite starts (sqlite3 trace callback: "before statement i+1" is
-"after statement i"), and the end of the call.  After each kill the directory
+"after statement i"), and the end of the call.  shutil.copy is NOT treated as
+atomic: in the child it is replaced by a staged copy with the three steps of
+the model (copy-create: destination created/truncated, 0 bytes; copy-partial:
+a strict prefix of the bytes written, flushed and closed; copy: the real
+shutil.copy completes), each with a kill point before and after it -- a kill
+inside the copy leaves an empty or a truncated backup file on disk.  After each kill the directory
 is listed, file bytes hashed, every survivor opened with a plain sqlite3
 connection on a private copy (schema from sqlite_master, all rows), then the
 next normal start (same entry point, no kill) is run in a fresh child and
@@ -107,6 +112,11 @@ class _Killed(Exception):
     pass
 
 
+def partial_len(n):
+    """how many of n bytes the interrupted copy has written: half, at least one byte short"""
+    return max(0, min(n // 2, n - 1))
+
+
 def _child_body(entry, ddir, kill_at, logfd, resfd):
     """runs in a forked child; never returns"""
     D = _database()
@@ -159,10 +169,36 @@ def _child_body(entry, ddir, kill_at, logfd, resfd):
         return o_rename(a, b, *r, **kw)
 
     def copy(a, b, *r, **kw):
-        if in_dir(a) or in_dir(b):
-            m = re.search(r"-backup-v(-?\d+)$", str(b))
-            return fsop("copy:" + (m.group(1) if m else "?"), o_copy, a, b, *r, **kw)
-        return o_copy(a, b, *r, **kw)
+        """shutil.copy in the three steps of the model (DbFiles.v: LCopyCreate, LCopyPartial,
+        LCopyDone), each an interception point pair: what copyfile does -- open the source, create
+        or truncate the destination, write, close, copymode -- with the process able to die after
+        the truncation and after part of the bytes"""
+        if not (in_dir(a) or in_dir(b)):
+            return o_copy(a, b, *r, **kw)
+        m = re.search(r"-backup-v(-?\d+)$", str(b))
+        v = m.group(1) if m else "?"
+        dst = os.path.join(b, os.path.basename(a)) if os.path.isdir(b) else b
+        box = {}
+
+        def create():
+            with open(a, "rb") as f:              # no source: OSError, nothing is created
+                box["data"] = f.read()
+            if o_exists(dst) and os.path.samefile(a, dst):
+                raise shutil.SameFileError("%r and %r are the same file" % (a, dst))
+            fd = os.open(dst, os.O_WRONLY | os.O_CREAT | os.O_TRUNC, 0o666)
+            os.fsync(fd)
+            o_close(fd)
+
+        def partial():
+            data = box["data"]
+            with open(dst, "r+b") as f:
+                f.write(data[:partial_len(len(data))])
+                f.flush()
+                os.fsync(f.fileno())
+
+        fsop("copy-create:" + v, create)
+        fsop("copy-partial:" + v, partial)
+        return fsop("copy:" + v, o_copy, a, b, *r, **kw)     # the real shutil.copy: all bytes + mode bits
 
     def exists(p):
         try:
@@ -505,6 +541,19 @@ def scenarios(pid, tier, seed):
                     [dict(kind="db", schema="usage", schema_version=old, rows=9, current=1)], "upgrade", double=True)
             add("upgrade-v%d-extra-version-rows" % old, "get_usage",
                 [dict(kind="db", schema="usage", schema_version=old, rows=5, current=1, versions=[old, 7])], "upgrade")
+            # something is already at the backup path (what a kill inside an earlier copy left, or a stale
+            # backup of another database): it must be overwritten, not kept and not restored from
+            bk = MAIN + "-backup-v%d" % old
+            add("upgrade-v%d-backup-empty" % old, "get_usage",
+                [dict(kind="db", schema="usage", schema_version=old, rows=6, current=1),
+                 dict(kind="empty", file=bk)], "upgrade")
+            add("upgrade-v%d-backup-truncated" % old, "get_usage",
+                [dict(kind="db", schema="usage", schema_version=old, rows=40, current=1),
+                 dict(kind="truncated", schema="usage", schema_version=old, rows=40, current=1, at=4096 + 1000, file=bk)],
+                "upgrade")
+            add("upgrade-v%d-backup-stale" % old, "get_usage",
+                [dict(kind="db", schema="usage", schema_version=old, rows=8, current=1),
+                 dict(kind="db", schema="usage", schema_version=old, rows=3, current=0, file=bk)], "upgrade")
             add("upgrade-v%d-with-leftovers" % old, "get_usage",
                 [dict(kind="db", schema="usage", schema_version=old, rows=7, current=1),
                  dict(kind="random", size=700, file=MAIN + ".left0ver"),
@@ -727,6 +776,8 @@ def same_content(model_file, real, tokens, init_payloads):
     if real["kind"] == "empty":
         return True
     if real["kind"] == "junk":
+        if model_file["token"] == 0:      # the model's partial_copy: the truncated copy of the initial main file
+            return ("partial:" + real["sha"]) in tokens
         return tokens.get("junk:" + real["sha"]) == model_file["token"]
     if model_file["objects"] != real["objects"]:
         return False
@@ -870,6 +921,7 @@ def _run_scenario(spec, seed):
                 shutil.rmtree(snap)
             points.append(pt)
         return {"spec": spec, "seed": sseed, "init": init, "init_sha": {n: sha(b) for n, b in init_bytes.items()},
+                "partial_sha": {n: sha(b[:partial_len(len(b))]) for n, b in init_bytes.items()},
                 "full": full, "points": points}
     finally:
         shutil.rmtree(scratch, ignore_errors=True)
@@ -1037,6 +1089,12 @@ def judge_property(run, refs):
             if not rows_intact(m):
                 viol("C20", "a record was lost: after the crash the database no longer holds every pre-existing row", pt)
                 continue
+            if not pt["bytes_same"].get(MAIN):
+                # "after first saving a byte-identical copy": the file is not touched before the backup is complete
+                cb = pt["obs"]["files"].get(backup)
+                if cb is None or cb["sha"] != run["init_sha"][MAIN]:
+                    viol("C20", "the database file was changed before a byte-identical backup of the old file was in place", pt)
+                    continue
             rr = pt["retry"]["res"] or {}
             rm = pt["retry"]["obs"]["files"].get(MAIN)
             if rr.get("outcome") != "ok":
@@ -1148,6 +1206,8 @@ def run(pid, tier, seed, only=None, procs=None):
                 unsupported[i] = why
                 continue
             fs, tokens = coq_fs(rn["init"])
+            if MAIN in rn.get("partial_sha", {}):
+                tokens["partial:" + rn["partial_sha"][MAIN]] = 0      # "junk0" of the model (DbFiles.partial_copy)
             rn["tokens"] = tokens
             key = (rn["spec"]["entry"], fs)
             if key not in keys:
@@ -1189,6 +1249,12 @@ def run(pid, tier, seed, only=None, procs=None):
                 kinds["crash-state:differs-from-initial"] += 1
             if pt["obs"]["journals"]:
                 kinds["crash-state:journal-left"] += 1
+            for n2, a2 in pt["obs"]["files"].items():
+                if role(n2).startswith("backup") and a2["sha"] != rn["init_sha"].get(n2):
+                    if a2["size"] == 0:
+                        kinds["crash-state:backup-empty (killed inside the copy)"] += 1
+                    elif a2["sha"] == rn.get("partial_sha", {}).get(MAIN) and a2["sha"] != rn["init_sha"].get(MAIN):
+                        kinds["crash-state:backup-truncated (killed inside the copy)"] += 1
             if any(role(n) == "tmp" and n not in rn["init"]["files"] for n in pt["obs"]["files"]):
                 kinds["crash-state:temp-file-left"] += 1
             # no-write scenarios: a point counts once the file has been opened (or the call has ended)
